@@ -12,7 +12,7 @@ print('cells', info['cells'], 'sets', info['set_sizes'], 'top', info['top_sites'
 PY
 [ $? -ne 0 ] && exit 1
 cd /verif/build/$2
-F="--unwind $4 --unwinding-assertions --no-pointer-check --no-bounds-check --no-div-by-zero-check --no-signed-overflow-check --no-undefined-shift-check --no-pointer-primitive-check"
+F="$UWS --unwind $4 --unwinding-assertions --no-pointer-check --no-bounds-check --no-div-by-zero-check --no-signed-overflow-check --no-undefined-shift-check --no-pointer-primitive-check"
 MM=${5:-sc}
 ( /usr/bin/time -f "hold: %es %MKB" timeout 600 cbmc $1.cbmc.c --mm $MM $F 2>&1 | grep -E "FAILURE|VERIF|variables|time -f|hold:" ) &
 ( /usr/bin/time -f "witness: %es %MKB" timeout 600 cbmc $1.cbmc.c -DWITNESS --mm $MM $F 2>&1 | grep -E "VERIF|witness" ) &
